@@ -14,7 +14,8 @@ for id in "${ids[@]}"; do
   git -C "$REPO" apply "$d/patch.diff" 2>/dev/null || { echo "$id: patch does not apply"; continue; }
   if ! ( cd "$REPO" && go test -count=1 ./... >/dev/null 2>&1 && cd cmd/hranoprovod-cli && go test -count=1 ./... >/dev/null 2>&1 ); then echo "$id: suite fails"; fi
   res=""
-  for chk in $(jq -r '.checks[].property_id' "$VERIF/MANIFEST.json"); do
+  # VALIDATION_CHECKS: a subset of the claimed checks (default: all of them)
+  for chk in ${VALIDATION_CHECKS:-$(jq -r '.checks[].property_id' "$VERIF/MANIFEST.json")}; do
     out=$("$VERIF/check" "$chk" --tier "$TIER" 2>&1); rc=$?
     if [ $rc -eq 0 ]; then res="$res $chk:ok"; else res="$res $chk:rc=$rc"; echo "$out" | grep -E '^hrsim: C[0-9]+ [a-z]|VIOLATION|hrsim-build|rror' | head -5 | cut -c1-300; fi
   done
